@@ -6,6 +6,7 @@ import (
 	"runtime"
 	"strings"
 
+	"github.com/consensys/gnark-crypto/ecc/bn254/fr"
 	"github.com/consensys/gnark/constraint/solver"
 	"github.com/consensys/gnark/frontend"
 )
@@ -93,7 +94,8 @@ type Injection struct {
 	Inputs  []*big.Int
 	Honest  []*big.Int
 	Subst   []*big.Int
-	Differs bool // substituted tuple != honest tuple (mod r)
+	Differs bool   // substituted tuple != honest tuple (mod r)
+	Caller  string // repo function that requested the hint (e.g. goldilocks.(*Chip).MulAdd)
 }
 
 func (s Subst) apply(q *big.Int, kind HintKind, in, honest []*big.Int) []*big.Int {
@@ -278,7 +280,11 @@ func (e *Engine) NewHint(f solver.Hint, nbOutputs int, inputs ...frontend.Variab
 				differs = true
 			}
 		}
-		e.res.Injected = append(e.res.Injected, Injection{idx, kind, site, in, honest, res, differs})
+		caller := repoSite(2, 1)
+		if i := strings.LastIndex(caller, ":"); i > 0 {
+			caller = caller[:i]
+		}
+		e.res.Injected = append(e.res.Injected, Injection{idx, kind, site, in, honest, res, differs, caller})
 	}
 	if tr := e.opt.Trace; tr != nil && tr.KeepIO[idx] {
 		if tr.IO == nil {
@@ -320,4 +326,9 @@ func callHint(f solver.Hint, q *big.Int, in []*big.Int, n int) (res []*big.Int, 
 		return nil, false
 	}
 	return res, true
+}
+
+// ApplySubst computes the substituted outputs of a hint call (exported for compiled-backend overrides).
+func ApplySubst(s Subst, kind HintKind, in, honest []*big.Int) []*big.Int {
+	return s.apply(fr.Modulus(), kind, in, honest)
 }
